@@ -451,10 +451,44 @@ def check_map_fold(ctx, cfg):
             ok = ok and good
             dets.append(det_)
         others = [c.fn for c in an.calls if c.fn.startswith("core::iter::") and c.fn.split("::")[-1] in ("fold", "rfold", "for_each", "try_fold", "collect")]
-        probs = pipelines_only(ctx, cfg, key, an, COLLECT)
-        ok = ok and not others and not probs
-        ctx.ob(rule, key, ok, "; ".join(dets + probs) if (dets or probs) else "no from_iter pipeline found", at=b["at"], cfg=cfg)
-        n += 1
+        gen_form = None
+        if not fi:
+            # map = Mapped::generate(|i| f(read(self[i]))): generate calls its closure with 0, 1, .., N-1 in ascending order and stores result i at
+            # index i (C08.G, every generate of the crate); the closure reads element i of the whole source array (index = its argument), hands it
+            # to f exactly once and returns f's result - so slot i holds f(a[i]) and f runs in index order. (That element i is moved out exactly
+            # once and disowned before f runs is the step protocol's business: C03.P / C04.P / C04.O.)
+            from ..ownership import range_driver
+            gens = [c for c in an.calls if c.fn.endswith("GenericSequence::generate")]
+            if len(gens) == 1 and range_driver(gens[0], an) is not None:
+                g_ = gens[0]
+                n_out = range_driver(g_, an)[0][2][1][1]
+                cb, ca = closure_body(ctx, cfg, g_.args[0])
+                c_ok = False
+                if ca is not None and n_out == N:
+                    idx = Poly.atom(("arg", 2))
+                    rds = [c for c in ca.calls if c.fn == "core::ptr::read" and c.args[0][0] == "P"]
+                    if len(rds) == 1:
+                        rp = rds[0].args[0]
+                        S_ = ca.tenv.size(rds[0].targs[0]) if rds[0].targs else None
+                        # the pointer read is `upvar slice`[i]: base = pointee of an upvar, offset i * size_of::<T>()
+                        at_i = S_ is not None and rp[2] == idx * S_ and rp[1][0] == "obj" and isinstance(rp[1][1], tuple) and rp[1][1][0] == "cell" and rp[1][1][1][0] == ("arg", 1)
+                        k_up = rp[1][1][1][1][0] if at_i and rp[1][1][1][1] else None
+                        src = g_.args[0][2][k_up] if (k_up is not None and k_up < len(g_.args[0][2])) else None
+                        whole = src is not None and src[0] == "P" and src[3] is not None and peq(an, g_.facts, src[2], Poly.const(0)) and peq(an, g_.facts, src[3], N) and \
+                            consumer_array_base(an, g_, owners)(("V", "arg", 1))(src[1])
+                        once, args_ok, call = check_f_call(ca, [rds[0].ret])
+                        c_ok = bool(at_i and whole and once and args_ok and call is not None and all(r["val"] == call.ret for r in ca.returns))
+                good = c_ok and all(r["val"] == g_.ret for r in an.returns)
+                gen_form = (good, "map = Mapped::generate(|i| f(read(self[i]))) over the whole source array, N slots out: closure reads element i (its argument), calls f once on it and returns the result: %s; generate's result returned: %s" % (c_ok, good))
+        if gen_form is not None:
+            ok = gen_form[0] and not others
+            ctx.ob(rule, key, ok, gen_form[1], at=b["at"], cfg=cfg)
+            n += 1
+        else:
+            probs = pipelines_only(ctx, cfg, key, an, COLLECT)
+            ok = ok and not others and not probs
+            ctx.ob(rule, key, ok, "; ".join(dets + probs) if (dets or probs) else "no from_iter pipeline found", at=b["at"], cfg=cfg)
+            n += 1
     key = FS + "fold"
     b = db.get(key)
     if b is None:
